@@ -170,3 +170,43 @@ Definition swapped_layout (d : dim) (n : nat) (root : ctree) (ccs : list cc) : l
 Example swapped_order_breaks_ids :
   tag_at (swapped_layout DY 7 ex_root ex_ccs) (stored_id 7 ex_root 2) = Some (TCc 0 0).
 Proof. reflexivity. Qed.
+
+(* ------------------------------------------------------------------ fixed-rectangle clusters *)
+Lemma node_tag_at n i : (i < n)%nat -> nth_error (node_tags n) i = Some (TNode i).
+Proof.
+  intros Hi. unfold node_tags. rewrite nth_error_map.
+  rewrite (nth_error_nth' (seq 0 n) 0%nat) by (rewrite seq_length; exact Hi).
+  rewrite seq_nth by exact Hi. reflexivity.
+Qed.
+
+Lemma setup_node_tag d n root ccs i : (i < n)%nat -> tag_at (setup_layout d n root ccs) i = Some (TNode i).
+Proof.
+  intros Hi. unfold tag_at, setup_layout. rewrite nth_error_app1 by (rewrite node_tags_length; exact Hi).
+  apply node_tag_at. exact Hi.
+Qed.
+
+(* the equalities generated for a fixed-rectangle cluster c on rectangle ri bind, in the run-time variable list of any
+   dimension with any user constraints, c's own min-side variable to rectangle ri's variable and that to c's own max-side
+   variable: the constraint list is exactly [Cmin + half == N ri; N ri + half == Cmax] by creator tag *)
+Theorem fixed_rect_constraints_bind_thm d n root ccs fixed rects c cs :
+  In (c, cs) (fixed_rect_constraints d n root fixed rects) ->
+  In (TMin c) (stored_layout n root) ->
+  exists ri half, In (c, ri) fixed /\ half == rlen d (nth ri rects rect0) / 2 /\
+    cs = [mkSep (stored_id n root c) ri half true; mkSep ri (S (stored_id n root c)) half true] /\
+    tag_at (setup_layout d n root ccs) (stored_id n root c) = Some (TMin c) /\
+    tag_at (setup_layout d n root ccs) (S (stored_id n root c)) = Some (TMax c) /\
+    ((ri < n)%nat -> tag_at (setup_layout d n root ccs) ri = Some (TNode ri)).
+Proof.
+  intros Hin Hc. unfold fixed_rect_constraints in Hin. apply in_map_iff in Hin.
+  destruct Hin as ([c' ri] & E & Hf). cbn [fst snd] in E. injection E as -> <-.
+  exists ri, (Qred (rlen d (nth ri rects rect0) / 2)).
+  destruct (stored_id_points_at_cluster_thm d n root ccs c Hc) as [T1 T2].
+  split; [exact Hf|]. split; [apply Qred_correct|]. split; [reflexivity|]. split; [exact T1|]. split; [exact T2|].
+  apply setup_node_tag.
+Qed.
+
+(* non-vacuity: cluster 2 of ex_root fixed to rectangle 6 *)
+Example fixed_rect_constraints_ex :
+  fixed_rect_constraints DX 7 ex_root [(2%nat, 6%nat)] (repeat (mkRect 0 10 0 20) 7) =
+  [(2%nat, [mkSep 7 6 5 true; mkSep 6 8 5 true])] /\ In (TMin 2) (stored_layout 7 ex_root).
+Proof. split; [reflexivity|]. cbn. tauto. Qed.
